@@ -35,7 +35,9 @@ add("C03", "As C01 for the enumerate-and-check stable variants (plain, prefilter
 
 add("C04", "TLC checks the transcription of two_val_model_counts_logic (CountSearch.tla, both heuristics) against the definition of stable "
     "models for all 256 two-statement ADFs (thorough: 4394 three-statement cases) and judges every observed answer of "
-    "stable_count_optimisation_heu_{a,b} on native/hybrid objects. --selftest shows the unrepaired transcription rediscovers the lost-model defect.",
+    "stable_count_optimisation_heu_{a,b} on native/hybrid objects (10 260 ADFs incl. a family of self-referential conditions). --selftest shows the unrepaired "
+    "transcription rediscovers the lost-model defect. Step-level conformance (hook H3b): every entry (interpretation, will_be, depth) of the real recursion "
+    "must be produced in the same pre-order by CountSearch!Visits - which pins both heuristics, the cube order and the pruning (drift only).",
     SEM_NOTE, "TLA+ transcription of the counting search model-checked against the definition; TLC trace validation of recorded answers", "6/C04")
 add("C05", "NgSearch.tla models nogood_internal with a nondeterministic heuristic (= every contract-abiding custom heuristic): TLC proves "
     "exactness, stack synchrony, a step bound and (under fairness) termination for all two-statement ADFs (thorough: 512 three-statement ADFs). "
